@@ -171,7 +171,7 @@ pub fn large_cases(a: &Args, rep: &mut Report, label: &str, quick: &[usize], tho
     // the build without rayon constructs every cell on one thread: its quick leg takes the first size only, its thorough leg
     // the first two
     if a.leg.as_deref() == Some("norayon") || a.leg.as_deref() == Some("relcheck") {
-        szs = &szs[..if a.tier == "thorough" { 2 } else { 1 }];
+        szs = &szs[..(if a.tier == "thorough" { 2 } else { 1 }).min(szs.len())];
     }
     let make = |k: u64| {
         let n = szs[k as usize];
@@ -216,7 +216,8 @@ pub fn medium_cases(a: &Args, rep: &mut Report, label: &str, f: impl Fn(&Case, &
     }
     let n = if a.tier == "thorough" { 80 } else { 12 };
     run_parallel(rep, n, budget(a, 300., 2400.), |k, rep| {
-        let szs = [1100usize, 2100, 4200, 8300, 16500];
+        // (8 300 and 16 500 in the thorough tier only: on one pinned worker they are the long tail of a quick run)
+        let szs: &[usize] = if a.tier == "thorough" { &[1100, 2100, 4200, 8300, 16500] } else { &[1100, 2100, 4200] };
         let o = GenOpts {
             families: &["uniform", "gradient", "uniform"],
             sizes: &[szs[k as usize % szs.len()]],
